@@ -164,6 +164,18 @@ pub fn guarded<T>(f: impl FnOnce() -> T) -> Result<T, PanicRec> {
 use std::sync::atomic::{AtomicU64, Ordering as AO};
 
 static CASE_START_MS: AtomicU64 = AtomicU64::new(0);
+static EXTERNAL_WAIT: AtomicU64 = AtomicU64::new(0);
+
+/// Run `f`, which waits for another process (the old engine, the ykh binary). While it runs the quiescence
+/// test is suspended: this process sleeping is then no evidence of a deadlock in the library. The caller
+/// bounds the wait itself and reports an overrun as inconclusive.
+pub fn external<T>(f: impl FnOnce() -> T) -> T {
+    struct G;
+    impl Drop for G { fn drop(&mut self) { EXTERNAL_WAIT.fetch_sub(1, AO::SeqCst); } }
+    EXTERNAL_WAIT.fetch_add(1, AO::SeqCst);
+    let _g = G;
+    f()
+}
 static CASE_INFO: Mutex<Option<(String, String, u64, u64, String)>> = Mutex::new(None); // prop, kind, idx, seed, tier
 
 fn now_ms() -> u64 { std::time::SystemTime::now().duration_since(std::time::UNIX_EPOCH).map(|d| d.as_millis() as u64).unwrap_or(0) }
@@ -206,7 +218,7 @@ pub fn spawn_watchdog(quiet_after_s: u64, case_timeout_s: u64) {
             let quiet = !a.is_empty() && a.len() == b.len() && a.iter().zip(b.iter()).all(|(x, y)| x.0 == y.0 && x.2 == y.2 && x.1 == 'S' && y.1 == 'S');
             let info = CASE_INFO.lock().unwrap_or_else(|e| e.into_inner()).clone();
             let Some((prop, kind, idx, seed, tier)) = info else { continue };
-            if quiet {
+            if quiet && EXTERNAL_WAIT.load(AO::SeqCst) == 0 {
                 let line = json!({"t": "violation", "property": prop, "key": format!("{prop}/deadlock"),
                     "what": format!("the call has not returned after {run_s} s: all {} threads are sleeping and no CPU time was consumed over 2 s (quiescent: deadlock)", a.len()),
                     "kind": kind, "idx": idx, "case_seed": seed.to_string(), "tier": tier,
@@ -333,6 +345,25 @@ impl Ctx {
             if self.replay.is_none() {
                 if !self.mine(idx) { continue }
                 if !self.time_left() { self.budget_exhausted = true; break }
+            }
+            self.case(kind, idx, |c, r| f(c, r));
+            if self.replay_done { break }
+        }
+        let dt = self.elapsed() - t0;
+        self.count(&format!("ms_spent/{kind}"), (dt * 1000.0) as i64);
+    }
+
+    /// like `random_cases`, but this kind may use at most `share` of the time budget (so that a slow
+    /// second-opinion workload cannot starve the others)
+    pub fn random_cases_share<F>(&mut self, kind: &str, n_total: u64, share: f64, mut f: F)
+    where F: FnMut(&mut Ctx, &mut Rng) {
+        if let Ok(only) = std::env::var("VH_ONLY") { if !kind.contains(&only) { return } }
+        let t0 = self.elapsed();
+        for idx in 0..n_total {
+            if self.replay.is_none() {
+                if !self.mine(idx) { continue }
+                if !self.time_left() { self.budget_exhausted = true; break }
+                if self.elapsed() - t0 > share * self.budget_s { self.count(&format!("time_share_used_up/{kind}"), 1); break }
             }
             self.case(kind, idx, |c, r| f(c, r));
             if self.replay_done { break }
